@@ -47,6 +47,7 @@ def tasks(tier):
         unfold = 1
         if (k1, k2) == ("Exactly", "Exactly"):
             add("typeorder/mirror[Exactly,Exactly]/relative.plain_bases", m.t_mirror(k1, k2, "relative", unfold=2, variant="plain_bases"))
+            add("typeorder/mirror[Exactly,Exactly]/relative.same_base", m.t_mirror(k1, k2, "relative", unfold=2, variant="same_base"))
             add("typeorder/mirror[Exactly,Exactly]/relative.hooked_base", m.t_mirror(k1, k2, "relative", unfold=2, variant="hooked_base"))
         elif (k1, k2) == ("Alias", "Alias"):
             add("typeorder/mirror[Alias,Alias]/outside.some_args", m.t_mirror(k1, k2, "outside", variant="some_args"))
@@ -67,7 +68,11 @@ def tasks(tier):
 
 
 def conformance(tier):
-    return [dict(name="routing-model", argv=["conformance.py"])]
+    return [
+        dict(name="routing-model", argv=["conformance.py"]),
+        # R mode (bounded, never counted as proved): every clause evaluated on the real code over small type terms
+        dict(name="native:c12", argv=["suite.py", "c12_search"], violation_on_fail=True),
+    ]
 
 
 def concretise(obname, detail, task_result, native):
